@@ -46,12 +46,14 @@ theorem parents_heads_step {st : State} (w : WF st) {c : Commit} (ok : okCommit 
       t.2 = heads (textsOf (record st c)) t.1 (candidates (record st c) r.parents t.1) := by
   intro r hr t ht
   show t.2 = heads (textsOf (mkRec st c :: st)) t.1 (candidates (mkRec st c :: st) r.parents t.1)
+  have hid : c.id ∉ ids st := fun h => ok.1 (id_mem_mentioned h)
   rcases List.mem_cons.mp hr with h | h
   · subst h
     show t.2 = heads (textsOf (mkRec st c :: st)) t.1 (candidates (mkRec st c :: st) c.parents t.1)
-    rw [heads_stable w (mkRec st c) ok.1 _ ok.2.1]
-    exact (mkRec_texts_mem w ok.1 ht).1
-  · rw [heads_stable w (mkRec st c) ok.1 _ (w.parents r h)]
+    rw [heads_stable w (mkRec st c) hid _ fun p hp (e : p = c.id) => ok.2.1 (e ▸ hp)]
+    exact (mkRec_texts_mem w hid ht).1
+  · rw [heads_stable w (mkRec st c) hid _ fun p hp (e : p = c.id) =>
+      ok.1 (e ▸ parent_mem_mentioned h hp)]
     exact P r h t ht
 
 theorem parents_heads_build : ∀ (h : List Commit), hist h →
@@ -91,29 +93,52 @@ theorem nodup_append_right_not_left {l1 l2 : List Nat} (h : (l1 ++ l2).Nodup) {x
 
 theorem ids_append (a b : State) : ids (a ++ b) = ids a ++ ids b := by simp [ids]
 
+theorem mentioned_cons_of_mem {r : Rec} {st : State} {x : Rev} (h : x ∈ mentioned st) :
+    x ∈ mentioned (r :: st) := by
+  simp only [mentioned, ids, List.map_cons, List.flatMap_cons, List.mem_append, List.mem_cons,
+    List.mem_map, List.mem_flatMap] at h ⊢
+  rcases h with h | h
+  · exact Or.inl (Or.inr h)
+  · exact Or.inr (Or.inr h)
+
 /-- `_do_generate_text_key_index` reproduces the stored per-file graph, key by
-key and in the same order -/
+key and in the same order; ghost parents are skipped on both sides (`invOf` is
+`none` for them in `full` as it was at commit time, because no later revision
+takes a named id) -/
 theorem expIndexAux_build : ∀ (h : List Commit), hist h → ∀ (pre : State),
-    (ids (pre ++ build h)).Nodup → expIndexAux (pre ++ build h) (build h) = textsOf (build h)
+    (∀ x ∈ ids pre, x ∉ mentioned (build h)) →
+    expIndexAux (pre ++ build h) (build h) = textsOf (build h)
   | [], _, _, _ => rfl
   | c :: older, hh, pre, hn => by
     have w := build_WF older hh.1
-    obtain ⟨hid, hpar, _⟩ := hh.2
+    obtain ⟨hment, hself, _⟩ := hh.2
+    have hid : c.id ∉ ids (build older) := fun h => hment (id_mem_mentioned h)
     show expIndexAux (pre ++ (mkRec (build older) c :: build older))
       (mkRec (build older) c :: build older) = textsOf (mkRec (build older) c :: build older)
     have hfull : pre ++ (mkRec (build older) c :: build older)
         = (pre ++ [mkRec (build older) c]) ++ build older := by simp
-    have ih := expIndexAux_build older hh.1 (pre ++ [mkRec (build older) c]) (by rw [← hfull]; exact hn)
+    have hn' : ∀ x ∈ ids (pre ++ [mkRec (build older) c]), x ∉ mentioned (build older) := by
+      intro x hx hm
+      rw [ids_append] at hx
+      rcases List.mem_append.mp hx with h1 | h1
+      · exact hn x h1 (mentioned_cons_of_mem hm)
+      · simp only [ids, List.map_cons, List.map_nil, List.mem_singleton] at h1
+        have h1' : x = c.id := h1
+        exact hment (h1' ▸ hm)
+    have ih := expIndexAux_build older hh.1 (pre ++ [mkRec (build older) c]) hn'
     rw [textsOf_cons]
     simp only [expIndexAux]
     rw [hfull, ih]
     congr 1
     have hc : ∀ f, candidates ((pre ++ [mkRec (build older) c]) ++ build older) c.parents f
         = candidates (build older) c.parents f := fun f =>
-      candidates_append _ _ _ _ fun p hp => by
-        apply nodup_append_right_not_left (l2 := ids (build older))
-        · rw [← ids_append, ← hfull]; exact hn
-        · exact hpar p hp
+      candidates_append _ _ _ _ fun p hp hx => by
+        rw [ids_append] at hx
+        rcases List.mem_append.mp hx with h1 | h1
+        · exact hn p h1 (parent_mem_mentioned (r := mkRec (build older) c) List.mem_cons_self hp)
+        · simp only [ids, List.map_cons, List.map_nil, List.mem_singleton] at h1
+          have h1' : p = c.id := h1
+          exact hself (h1' ▸ hp)
     show (((mkRec (build older) c).inv.filter fun t => t.2.rev == c.id).map fun t =>
         ((t.1, c.id), heads (textsOf (build older)) t.1
           (candidates ((pre ++ [mkRec (build older) c]) ++ build older) c.parents t.1)))
@@ -125,7 +150,7 @@ theorem expIndexAux_build : ∀ (h : List Commit), hist h → ∀ (pre : State),
 
 theorem expIndex_build (h : List Commit) (hh : hist h) :
     expIndex (build h) = textsOf (build h) := by
-  have := expIndexAux_build h hh [] (by simpa using (build_WF h hh).nodup)
+  have := expIndexAux_build h hh [] (by simp [ids])
   simpa [expIndex] using this
 
 /-! ### uniqueness of keys -/
@@ -171,7 +196,8 @@ theorem textKeys_nodup : ∀ (h : List Commit), hist h → ((textsOf (build h)).
   | [], _ => by simp [build, textsOf]
   | c :: older, hh => by
     have ih := textKeys_nodup older hh.1
-    obtain ⟨hid, _, hnd⟩ := hh.2
+    obtain ⟨hment, _, hnd⟩ := hh.2
+    have hid : c.id ∉ ids (build older) := fun h => hment (id_mem_mentioned h)
     show ((textsOf (mkRec (build older) c :: build older)).map (·.1)).Nodup
     rw [textsOf_cons, List.map_append, List.nodup_append]
     refine ⟨?_, ih, ?_⟩
